@@ -724,3 +724,104 @@ fn send(srv: &mut LspServer, bytes: &[u8], frag: usize, count: &mut u64) {
     srv.send_fragmented(bytes, frag, 8);
     *count += srv.fragments_sent - before;
 }
+
+/// C12 / C11 liveness under pipelining: a conforming client that answers every server request at once, but writes a
+/// burst of didChange notifications before it reads anything (an editor replaying queued edits, a slow pipe).
+pub struct Burst;
+
+#[derive(Clone, Debug, Serialize, Deserialize)]
+pub struct BurstInput {
+    pub sim: SimParams,
+    pub n: usize,
+    pub run_seed: u64,
+    #[serde(default)]
+    pub sandbox: Option<String>,
+}
+
+impl Scenario for Burst {
+    fn name(&self) -> &'static str {
+        "burst"
+    }
+    fn rule(&self) -> &'static str {
+        "full LSP stack on a small workspace; after the scan the client writes n (20-160) didChange notifications for one document \
+         back to back, then reads and answers every workspace/inlayHint/refresh request immediately; afterwards a documentSymbol request \
+         must be answered within the step budget; non-trivial = n exceeds the framework's queue (100) plus its handler slots (4); distinct = n x schedule"
+    }
+    fn runs(&self, tier: Tier) -> u64 {
+        match tier {
+            Tier::Quick => 60,
+            Tier::Thorough => 2_000,
+        }
+    }
+    fn shrink_paths(&self) -> Vec<&'static str> {
+        vec![]
+    }
+    fn gen(&self, run_seed: u64, _tier: Tier) -> Value {
+        let mut rng = Rng::new(run_seed);
+        let mut sim = SimParams::gen(&mut rng, 4000);
+        sim.max_steps = 200_000_000;
+        let n = if rng.chance(600) { rng.range(104, 160) } else { rng.range(20, 103) };
+        serde_json::to_value(BurstInput { sim, n, run_seed, sandbox: None }).unwrap()
+    }
+    fn exec(&self, input: &Value) -> RunOut {
+        let mut out = RunOut::default();
+        let inp: BurstInput = match serde_json::from_value(input.clone()) {
+            Ok(i) => i,
+            Err(e) => {
+                out.harness_error = Some(format!("bad input: {}", e));
+                return out;
+            }
+        };
+        let sb = Sandbox::acquire("c12b", inp.run_seed, inp.sandbox.as_deref().map(Path::new));
+        let root = sb.root().join("ws");
+        let _ = std::fs::create_dir_all(&root);
+        let names = names_pool(3);
+        let texts = [simple_valid(&names), format!("{}\n# edited\n", simple_valid(&names))];
+        let _ = std::fs::write(root.join("conftest.py"), &texts[0]);
+        let _ = std::fs::write(root.join("test_a.py"), "def test_a(alpha):\n    pass\n");
+        let n = inp.n;
+        let r2 = root.clone();
+        let (oc, res) = simrt::run(inp.sim.cfg(replay_list(input, 0)), move || {
+            let mut srv = LspServer::start(&r2);
+            srv.refresh_policy = RefreshPolicy::AnswerAfter(0);
+            let id = srv.initialize();
+            if srv.await_response(id, 300).is_none() {
+                return Err(format!("no response to initialize: {:?}", srv.server_panic));
+            }
+            srv.notify("initialized", json!({}));
+            srv.steps(3);
+            srv.join_scan();
+            if !srv.settle(3, 3000) {
+                return Err("scan did not settle".to_string());
+            }
+            srv.did_open("conftest.py", &texts[0], 1);
+            srv.settle(3, 2000);
+            for i in 0..n {
+                srv.did_change("conftest.py", &texts[(i + 1) % 2], (i + 2) as i64);
+            }
+            let quiet = srv.settle(3, 60_000);
+            let id = srv.request("textDocument/documentSymbol", json!({"textDocument": {"uri": srv.uri("conftest.py")}}));
+            let answered = srv.await_response(id, 20_000).is_some();
+            Ok((quiet, answered, srv.refresh_requests))
+        });
+        out.absorb_outcome(&oc);
+        out.fingerprint = mix(inp.n as u64, oc.log_hash);
+        out.nontrivial = inp.n > 104;
+        if let Some(a) = &oc.abort {
+            abort_to_violation(&mut out, a, "burst of notifications");
+            return out;
+        }
+        match res {
+            Some(Ok((quiet, answered, refreshes))) => {
+                out.count("fault.pipelined_did_change_notifications", inp.n as u64);
+                out.count("probe.refresh_requests_answered_at_once", refreshes as u64);
+                if !answered {
+                    out.violate("server-wedged-by-pipelined-notifications", format!("after {} didChange notifications written back to back (every refresh request answered at once), a documentSymbol request is never answered (quiescent before the request: {})", inp.n, quiet));
+                }
+            }
+            Some(Err(e)) => out.violate("burst-server-failure", e),
+            None => out.harness_error = Some("no result".into()),
+        }
+        out
+    }
+}
